@@ -117,6 +117,11 @@ func (c *Ctx) Fail(prop, oracle, signature, format string, args ...interface{}) 
 			return
 		}
 	}
+	if modulePrefix != "" {
+		// runs against the root module carry their module in the signature: a finding listed for one module
+		// must never hide the same failure in the other
+		signature = modulePrefix + signature
+	}
 	for _, k := range knownSigs {
 		if k == signature {
 			// an open, listed finding: count it, do not stop — it must hide only itself
@@ -168,6 +173,12 @@ type Result struct {
 
 var knownSigs []string
 var ownProps []string
+var modulePrefix = func() string {
+	if m := os.Getenv("VW_MODULE"); m != "" && m != "v2" {
+		return m + "/"
+	}
+	return ""
+}()
 
 func env(k, d string) string {
 	if v := os.Getenv(k); v != "" {
